@@ -13,6 +13,12 @@ case = {
   "observe": read list(view) inside the ``with`` after every step (False: only apply the edits),
   "history": [[op, args...], ...]
 }
+Big fields are written compactly: instead of "first"/"rest" a case may carry
+  "layout":  [[piece, repeat], ...]   the text after "<name>:" is the concatenation of every piece
+                                      repeated ``repeat`` times; a piece may contain line breaks, and
+                                      every "@" in it becomes a running number (0, 1, 2, ... over the
+                                      whole field), so repeated pieces give distinct values
+``expand(case)`` spells such a case out ("first"/"rest"); everything else works on the expanded case.
 
 ops (every index is taken modulo the current number of values; not applicable -> skipped):
   ["append", v]              ["remove", i]            ["replace", i, v]
@@ -138,11 +144,57 @@ def text_to_lines(text):
     return lines
 
 
+MAX_FIELD_CHARS = 2000000
+
+
+def _layout_problem(layout):
+    if not isinstance(layout, list) or not layout:
+        return "layout"
+    total = 0
+    for item in layout:
+        if not (isinstance(item, list) and len(item) == 2 and isinstance(item[0], str)
+                and isinstance(item[1], int) and not isinstance(item[1], bool) and item[1] >= 0):
+            return "layout item"
+        total += (len(item[0]) + 7 * item[0].count("@")) * item[1]
+        if total > MAX_FIELD_CHARS:
+            return "layout too big"
+    return None
+
+
+def expand(case):
+    """A case with a compact "layout" -> the same case with "first" / "rest" spelled out."""
+    if not isinstance(case, dict) or "layout" not in case:
+        return case
+    out, n = [], 0
+    for piece, repeat in case["layout"]:
+        if "@" not in piece:
+            out.append(piece * repeat)
+            continue
+        parts = piece.split("@")
+        for _ in range(repeat):
+            for part in parts[:-1]:
+                out.append(part)
+                out.append(str(n))
+                n += 1
+            out.append(parts[-1])
+    lines = "".join(out).split("\n")
+    case = dict(case, first=lines[0], rest=lines[1:])
+    del case["layout"]
+    return case
+
+
 def invalid(case):
     """Reason why ``case`` is not a well-formed C11 case (None if it is)."""
     try:
         if not isinstance(case, dict) or case.get("kind") not in KINDS:
             return "kind"
+        if "layout" in case:
+            if "first" in case or "rest" in case:
+                return "layout next to first/rest"
+            problem = _layout_problem(case["layout"])
+            if problem:
+                return problem
+            case = expand(case)
         name, first, rest = case["name"], case["first"], case["rest"]
         head, tail, hist = case["head"], case["tail"], case["history"]
         if not (isinstance(name, str) and NAME_RE.match(name)):
@@ -529,4 +581,88 @@ def enum_cases(maxrest, pairs):
                 for h, observe in hists:
                     yield {"kind": kind, "name": "F", "head": ["A: 1"], "first": first, "rest": rest,
                            "tail": ["Z: 2"], "eof_nl": True, "observe": observe, "history": h}
+    return gen
+
+
+# ------------------------------------------------------------------------------------------
+# sizes: fields whose items, lines, words and blank runs are longer / more numerous than any
+# fixed buffer, window or look-ahead would hold.  Compact cases ("layout"), a read and one edit of
+# each kind per layout.
+
+SPAN_SIZES = {"quick": list(range(1, 41)), "thorough": list(range(1, 41)) + [64, 100, 257]}
+COUNT_SIZES = {"quick": [130, 1100], "thorough": [130, 1100, 5000]}
+CHAR_SIZES = {"quick": [100, 1000, 100000], "thorough": [100, 1000, 100000, 300000]}
+
+
+def size_histories(targets):
+    """No edit, a read through references, and one edit of each kind (at every target index)."""
+    hs = [[], [["read", "refs"]], [["append", "z"]], [["reformat"], ["append", "z"]]]
+    for no, i in enumerate(targets):
+        hs += [[["remove", i]], [["replace", i, "z"]], [["ref_set", i, "z", True]],
+               [["ref_remove", i, True]]]
+        if no == 0:
+            hs.append([["reformat"], ["remove", i]])
+    return hs
+
+
+def size_layouts(kind, tier):
+    """(layout, [value indices to edit]) - see EXHAUSTIVE["sizes"] in props/c11.py."""
+    comma = kind == "comma"
+    sep = "," if comma else ""
+    spans, counts, chars = SPAN_SIZES[tier], COUNT_SIZES[tier], CHAR_SIZES[tier]
+    for k in spans:
+        for marker in (" ", "\t"):
+            for com in ("", "\n# c" + sep):
+                line = com + "\n" + marker + "r@"
+                if comma:
+                    # ONE item on k continuation lines (k + 1 lines when it starts on the first one),
+                    # as the first / a middle / the last item (with and without a trailing comma)
+                    yield [[" p@,", 1], [line, k], [",\n" + marker + "s@, t@", 1]], [1, 2]
+                    yield [[" q@", 1], [line, k], [",\n" + marker + "s@, t@", 1]], [0, 1]
+                    yield [[" p@, s@,", 1], [line, k]], [2, 0]
+                    yield [[" p@, s@,", 1], [line, k], [" ,", 1]], [2, 1]
+                else:
+                    # k continuation lines of one value each
+                    yield [[" p@", 1], [line, k], ["\n" + marker + "s@ t@", 1]], [0, 1 + k // 2, k + 2]
+        if comma:
+            # ONE item of k words on one line
+            for blank in (" ", "\t "):
+                yield [[" p@,", 1], [blank + "r@", k], [",\n s@", 1]], [1, 2]
+        # a run of k comment lines between two values / inside an item
+        yield [[" p@" + sep + "\n", 1], ["# c" + sep + "\n", k], [" q@" + sep + " s@", 1]], [0, 1]
+        if comma:
+            yield [[" p@, q@\n", 1], ["#\n", k], ["\tr@, s@", 1]], [1, 2]
+    for n in counts:
+        mid = [0, n // 2, n - 1]
+        # n values on one line (with and without blanks), one per line, three per line, one per
+        # line with a comment line after each
+        yield [[" w@" + sep, n - 1], [" w@", 1]], mid
+        if comma:
+            yield [["w@,", n - 1], ["w@", 1], ["\n ,", 1]], mid
+        yield [[" w@" + sep + "\n", n - 1], [" w@", 1]], mid
+        yield [["\n", 1], ["\tw@ " + sep + " w@" + sep + " w@" + sep + "\n", n // 3], [" w@", 1]], \
+            [0, n // 2, 3 * (n // 3)]
+        yield [[" w@" + sep + "\n# c" + sep + "\n", n - 1], [" w@", 1]], mid
+    for n in chars:
+        # one very long word as the first / a middle / the last value; inside an item spanning lines
+        yield [[" ", 1], ["x", n], [sep + " s@\n t@", 1]], [0, 1]
+        yield [[" p@" + sep + " ", 1], ["x", n], [sep + "\n s@", 1]], [1, 0]
+        yield [[" p@" + sep + "\n ", 1], ["x", n]], [1, 0]
+        if comma:
+            yield [[" p@, q@\n ", 1], ["x", n], ["\n r@, s@", 1]], [1, 2]
+        # very long runs of blanks around a value, a very long comment line
+        yield [[" p@" + sep, 1], [" ", n], ["q@", 1], ["\t", n], [sep + "\n s@", 1]], [1, 2]
+        yield [[" ", n], ["p@" + sep + "\n", 1], [" ", n], ["q@", 1]], [0, 1]
+        yield [[" p@" + sep + "\n#", 1], ["c" + sep, n], ["\n q@", 1]], [0, 1]
+
+
+def enum_sizes(tier):
+    def gen():
+        no = 0
+        for kind in KINDS:
+            for layout, targets in size_layouts(kind, tier):
+                for h in size_histories(targets):
+                    no += 1
+                    yield {"kind": kind, "name": "F", "head": ["A: 1"], "layout": layout,
+                           "tail": ["Z: 2"], "eof_nl": True, "observe": no % 3 != 0, "history": h}
     return gen
